@@ -416,6 +416,12 @@ func ruleR7Binary(c *Ctx, prop string) {
 			}
 		}
 		c.decide(bad == "", "R7", key, site, name+" = driver(inputs[0], inputs[1], "+fname(kernel)+", multidirectional) with the ONNX kernel", bad)
+		if _, isBool := boolTables[name]; isBool && kernel != nil {
+			if c.boolKernels == nil {
+				c.boolKernels = map[string]*ssa.Function{}
+			}
+			c.boolKernels[name] = kernel
+		}
 	}
 	c.counts["R7.binary_rows"] = n
 	if n < 12 {
@@ -857,7 +863,52 @@ func (c *Ctx) checkBooleanLoop() {
 	}
 	key := "R7:boolean-loop"
 	if f == nil {
-		c.undecided("R7", key, "", "boolean element loop not found by role")
+		// no function that takes the element function as a value (an enumeration with a method, three separate
+		// loops ...): the clause is read off the kernels as a whole, on every assignment of truth values to two
+		// (2,2) tensors - a result element that came from another position, or from the same operand twice, shows
+		names := []string{}
+		for n := range c.boolKernels {
+			names = append(names, n)
+		}
+		sort.Strings(names)
+		cells := 0
+		var roots []*ssa.Function
+		for _, n := range names {
+			roots = append(roots, c.boolKernels[n])
+		}
+		cov := newCover(roots...)
+		cov.skip = map[*ssa.Function]bool{}
+		var bro []*ssa.Function
+		for _, g := range c.libFns {
+			if fnPkgPath(g) == pkgOps && g.Parent() == nil && g.Object() != nil && g.Object().Exported() && strings.Contains(g.Name(), "roadcast") {
+				bro = append(bro, g)
+			}
+		}
+		for g := range c.reachFrom(bro) {
+			cov.skip[g] = true // the broadcast helpers are R36's subject
+		}
+		for _, n := range names {
+			known, bad, k := c.booleanKernelExhaustive(c.boolKernels[n], n, cov)
+			if !known {
+				c.undecided("R7", key, "", "boolean element loop not found by role, and the "+n+" kernel cannot be followed as a whole")
+				return
+			}
+			if bad != "" {
+				c.violate("R7", key, c.pos(c.boolKernels[n].Pos()), bad)
+				return
+			}
+			cells += k
+		}
+		if len(names) < 3 {
+			c.undecided("R7", key, "", "boolean element loop not found by role")
+			return
+		}
+		if unc := cov.uncovered(c); len(unc) > 0 {
+			c.declined("boolean kernels as a whole", unc)
+			c.undecided("R7", key, "", "boolean element loop not found by role, and the kernels walked as a whole leave code unentered: "+strings.Join(unc, "; "))
+			return
+		}
+		c.discharge("R7", key, c.pos(c.boolKernels[names[0]].Pos()), fmt.Sprintf("no shared element loop taking a function value; %s walked as a whole on all %d assignments of truth values to two (2,2) tensors: every result element is the operator's function of the operands' elements at the same position", strings.Join(names, ", "), cells))
 		return
 	}
 	var ats []*ssa.Call
@@ -1103,7 +1154,18 @@ func ruleR7Unary(c *Ctx, prop string) {
 					}
 				}
 			}
-			c.decide(okS, "R7", key, site, "Sigmoid = 1/(1+exp(-x)) on the whole tensor", "Sigmoid does not have the dependency shape 1/(1+exp(-x)): "+c.wrapperGot(apply))
+			whyS := "Sigmoid does not have the dependency shape 1/(1+exp(-x)): " + c.wrapperGot(apply)
+			if !okS {
+				// however it is factored (in place on a private buffer, through helpers): the operator walked on named
+				// elements
+				if known, tbad, _ := c.sigmoidOperatorTable(); known {
+					okS = tbad == ""
+					if tbad != "" {
+						whyS = tbad
+					}
+				}
+			}
+			c.decide(okS, "R7", key, site, "Sigmoid = 1/(1+exp(-x)) on the whole tensor", whyS)
 		case name == "Relu":
 			// which function is applied is R18's business; here: delegates inputs[0] to one library activation
 			got := c.wrapperGot(apply)
@@ -1773,6 +1835,63 @@ func (c *Ctx) mutatesParams(f *ssa.Function, depth int) bool {
 	}
 	c.mutParamMemo[f] = res
 	return res
+}
+
+// booleanKernelExhaustive walks a boolean kernel on every assignment of truth values to two (2,2) tensors (256 walks):
+// result[i] = op(A[i], B[i]) at every position. Unlike the four-pair table this tells positions apart.
+func (c *Ctx) booleanKernelExhaustive(kernel *ssa.Function, name string, cov *pcover) (known bool, bad string, cells int) {
+	st := c.libInit()
+	want, ok := boolTables[name]
+	if !ok || kernel == nil || len(kernel.Params) != 2 || len(st.failed) > 0 {
+		return false, "", 0
+	}
+	for av := 0; av < 16; av++ {
+		for bv := 0; bv < 16; bv++ {
+			heap := st.heap.clone()
+			mk := func(bits int) pval {
+				cont := make([]pval, 4)
+				for i := range cont {
+					cont[i] = pval{k: pBool, b: bits>>uint(i)&1 == 1}
+				}
+				return pval{k: pShaped, i: 900, j: heap.alloc([]pval{{k: pInt, i: 2}, {k: pInt, i: 2}}).i, m: heap.alloc(cont).i}
+			}
+			p := &pinterp{c: c, budget: 400000, objects: true, content: true, globals: st.globals, contentType: types.Typ[types.Bool], cover: cov}
+			panicked := ""
+			p.onPanic = func(fn *ssa.Function, in ssa.Instruction, what string) { panicked = what + " at " + c.pos(in.Pos()) }
+			res, h := p.run(kernel, []pval{mk(av), mk(bv)}, 0, heap)
+			desc := fmt.Sprintf("on (2,2) tensors holding A=%04b, B=%04b (positions 3..0)", av, bv)
+			if panicked != "" {
+				return true, "the " + name + " kernel panics " + desc + ": " + panicked, cells
+			}
+			if p.aborted || len(res) != 2 || h == nil {
+				return false, "", cells
+			}
+			if nonNilKind(res[1].k) {
+				return true, "the " + name + " kernel refuses two (2,2) tensors of truth values", cells
+			}
+			if res[1].k != pNil || res[0].k != pShaped || res[0].m == 0 {
+				return false, "", cells
+			}
+			cont, shl := h.lists[res[0].m], h.lists[res[0].j]
+			if len(shl) != 2 || shl[0].k != pInt || shl[1].k != pInt {
+				return false, "", cells
+			}
+			if len(cont) != 4 || shl[0].i != 2 || shl[1].i != 2 {
+				return true, fmt.Sprintf("the %s kernel answers two (2,2) tensors with a tensor of shape (%d,%d)", name, shl[0].i, shl[1].i), cells
+			}
+			for i, e := range cont {
+				if e.k != pBool {
+					return false, "", cells
+				}
+				a, b := av>>uint(i)&1, bv>>uint(i)&1
+				if w := want[2*a+b] == '1'; e.b != w {
+					return true, fmt.Sprintf("%s: the %s kernel yields %v at flat position %d, where A holds %v and B holds %v", desc, name, e.b, i, a == 1, b == 1), cells
+				}
+			}
+			cells++
+		}
+	}
+	return true, "", cells
 }
 
 // booleanKernelTable walks a boolean kernel func(A, B tensor.Tensor) (tensor.Tensor, error) on two (2,2) tensors
